@@ -66,14 +66,14 @@ def _node_to_mermaid_flowchart_iter(
     if node_mapper is None:
         node_mapper = lambda node: DEFAULT_NODE_TEMPLATE.format(node=node)
     elif isinstance(node_mapper, str):
-        templ = node_mapper
-        node_mapper = lambda node: templ.format(node=node)
+        node_templ = node_mapper
+        node_mapper = lambda node: node_templ.format(node=node)
 
     if isinstance(edge_mapper, str):
-        templ = edge_mapper
+        edge_templ = edge_mapper
 
         def edge_mapper(from_id, from_node, to_id, to_node):
-            return templ.format(
+            return edge_templ.format(
                 from_id=from_id, from_node=from_node, to_id=to_id, to_node=to_node
             )
 
